@@ -200,6 +200,10 @@ class _HarnessMixin:
         if f is None:
             return None
         hit = False
+        ncalls = self.__dict__.get("_h_ncalls", 0)
+        self.__dict__["_h_ncalls"] = ncalls + 1
+        if ncalls < f.get("min_call", 0):
+            return None
         if "chunk" in f:
             hit = chunk_i == f["chunk"]
         elif kw:
@@ -235,6 +239,9 @@ class _Source(_HarnessMixin, strax.Plugin):
         # a row belongs to the first chunk whose [start, end) can hold it
         sel = self.H_ASSIGN == chunk_i
         data = rows[sel]
+        gate = getattr(self, "H_GATE", None)
+        if gate is not None:
+            gate(self, chunk_i)
         self._h_log(start, end, {}, extra=("chunk", chunk_i, int(sel.sum())))
         f = self._h_fault_hit(chunk_i=chunk_i)
         if f is not None:
@@ -462,11 +469,15 @@ def byzantine(plugin, f, good, start, end, name, as_chunk=False):
             c.data_type = other
             return c
         if kind == "gap":
-            return plugin.chunk(start=start + 1 if end > start else start, end=end, data=arr[:0], data_type=nm) \
-                if end > start else plugin.chunk(start=start, end=end, data=arr, data_type=nm)
+            if end <= start or (len(arr) and arr["time"].min() <= start):
+                plugin.H_LOG.append(("__noeffect__", nm, kind))     # cannot shift this chunk's start
+                return plugin.chunk(start=start, end=end, data=arr, data_type=nm)
+            return plugin.chunk(start=start + 1, end=end, data=arr, data_type=nm)
         if kind == "overlap":
-            s2 = max(0, start - 1)
-            return plugin.chunk(start=s2, end=end, data=arr, data_type=nm)
+            if start <= 0:
+                plugin.H_LOG.append(("__noeffect__", nm, kind))
+                return plugin.chunk(start=start, end=end, data=arr, data_type=nm)
+            return plugin.chunk(start=start - 1, end=end, data=arr, data_type=nm)
         raise ValueError(kind)
 
     if multi:
